@@ -28,7 +28,18 @@ OUT = "17:123456"
 
 IDX_IN = [0, 1, 11, 15, "00", "01", "0B", "0F"]
 IDX_OUT = [-1, 16, 0x20, 255, "10", "20", "zz", None, 1.5]
-DTMS = [dt(2024, 2, 29, 12, 5), dt(2023, 3, 26, 1, 55), dt(2099, 12, 31, 23, 55), dt(2024, 1, 1, 0, 0), "2024-02-29T12:05:00"]
+DTMS = [
+    dt(2024, 2, 29, 12, 5),
+    dt(2023, 3, 26, 1, 55),
+    dt(2099, 12, 31, 23, 55),
+    dt(2024, 1, 1, 0, 0),
+    "2024-02-29T12:05:00",
+    # 'until' has a resolution of 1 minute: seconds may be dropped or rounded, nothing else may change
+    dt(2024, 2, 29, 12, 59, 45),
+    dt(2024, 12, 31, 23, 59, 59),
+    dt(2024, 1, 1, 0, 0, 29),
+    dt(2024, 6, 30, 23, 59, 30),
+]
 ZMODES = {"follow_schedule": "00", "advanced_override": "01", "permanent_override": "02", "countdown_override": "03", "temporary_override": "04"}
 SMODES = {"auto": "00", "heat_off": "01", "eco_boost": "02", "away": "03", "day_off": "04", "day_off_eco": "05", "auto_with_reset": "06", "custom": "07"}
 
@@ -349,6 +360,11 @@ def cases(quick: bool):
 
 
 def close(a, b) -> bool:
+    if isinstance(a, str) and isinstance(b, str) and len(a) == 19 and a[10:11] == "T" and b[10:11] == "T":
+        try:  # date-times: equal to wire resolution (1 minute for 'until', exact when seconds are carried)
+            return abs((dt.fromisoformat(a) - dt.fromisoformat(b)).total_seconds()) < 60 and (b[-2:] != "00" or a[-2:] == "00")
+        except ValueError:
+            return a == b
     if a is None or b is None or isinstance(a, (str, bool)) or isinstance(b, (str, bool)):
         return a == b or (a is None and b is None)
     try:
